@@ -22,7 +22,7 @@ import numpy as np
 from . import lib, sweep
 from .lib import cbool, clist, cstr
 
-GEN = os.path.join(lib.COQ, 'gen')
+GEN = lib.GEN
 HEADER = ('From Coq Require Import List ZArith Bool String.\n'
           'From PM Require Import Base C05Model.\n'
           'Add LoadPath "%s" as PMGen.\nFrom PMGen Require Import Gen_classes.\n'
@@ -207,7 +207,7 @@ def regenerate(ctx):
     import fcntl
     os.makedirs(GEN, exist_ok=True)
     out = os.path.join(GEN, 'Gen_classes.v')
-    with open(os.path.join(lib.BUILD, '.coq.lock'), 'w') as lk:
+    with open(os.path.join(lib.LOCKDIR, '.coq.lock'), 'w') as lk:
         fcntl.flock(lk, fcntl.LOCK_EX)
         p = subprocess.run([sys.executable, os.path.join(lib.VERIF, 'tools', 'regen', 'classes_ast.py'),
                             lib.REPO, out], stdout=subprocess.PIPE, stderr=subprocess.PIPE, text=True)
